@@ -15,7 +15,7 @@ LEVEL = 'exploration'
 RULE = ('pool of 20 texts chosen to leave lexer/ply state dirty (valid programs, unterminated string, mismatched ")", '
         'open "if(" header, text ending inside a regex, text ending right after an inserted semicolon, comments, '
         'CRLF, texts that begin with a regex literal and texts that end on a division-implying token without a semicolon, a function-expression statement (ProductionError path), regex after "}" (back-tracking path), U+2028) '
-        'x comment-capture flag = 40 calls. The expected outcome of each call - ReprWalker dump with positions plus '
+        'x comment-capture flag = 40 calls, plus 8 calls through the calmjs.parse.es5 helper object. The expected outcome of each call - ReprWalker dump with positions plus '
         'attached comments, or exception type and message - is computed in a fresh interpreter per text. '
         '(i) exhaustively all call sequences of length <= 2 (quick) / <= 3 (thorough) in one process, every result '
         'compared with the fresh-process value; (ii) Hypothesis-generated long histories (<= 200 steps) that also '
@@ -49,6 +49,9 @@ TEXTS = [
     '/=/g.exec(y) / 2',
 ]
 CALLS = [(i, wc) for i in range(len(TEXTS)) for wc in (False, True)]
+# texts that are also parsed through the `calmjs.parse.es5(...)` helper object (same parser behind it)
+VIA_FACTORY = [0, 1, 6, 16]
+FCALLS = [(i, wc) for i in VIA_FACTORY for wc in (False, True)]
 
 ROOT = None
 EXPECTED = None
@@ -79,10 +82,23 @@ def outcome(text, wc):
 '''
 
 
-def outcome(text, wc):
-    ns = {}
-    exec(OUTCOME_CODE, ns)
-    return ns['outcome'](text, wc)
+_ons = {}
+
+
+def outcome(text, wc, via='parse'):
+    if 'outcome' not in _ons:
+        exec(OUTCOME_CODE, _ons)
+    if via == 'factory':
+        import calmjs.parse
+        from calmjs.parse.parsers import es5 as pmod
+        real = pmod.parse
+        try:
+            # the same outcome function, with the helper object standing in for parse()
+            pmod.parse = lambda text, with_comments=False: calmjs.parse.es5(text, with_comments=with_comments)
+            return _ons['outcome'](text, wc)
+        finally:
+            pmod.parse = real
+    return _ons['outcome'](text, wc)
 
 
 def expected_outcomes(root):
@@ -133,11 +149,11 @@ def run_history(acc, opens, exp, history, origin):
     prev = None
     interesting = False
     for step, op in enumerate(history):
-        if op[0] == 'parse':
+        if op[0] in ('parse', 'fparse'):
             i, wc = op[1], op[2]
-            got = outcome(TEXTS[i], wc)
+            got = outcome(TEXTS[i], wc, 'factory' if op[0] == 'fparse' else 'parse')
             want = exp[(i, wc)]
-            if prev is not None and prev[0] == 'parse' and (
+            if prev is not None and prev[0] in ('parse', 'fparse') and (
                     exp[(prev[1], prev[2])][0] == 'error' or prev[2] != wc):
                 interesting = True
             if got != want:
@@ -215,11 +231,12 @@ def run_shard(shard):
     exp = unpack(shard)
     if shard['kind'] == 'seq':
         n = 0
+        allcalls = [('parse',) + c for c in CALLS] + [('fparse',) + c for c in FCALLS]
         for L in range(1, shard['len'] + 1):
-            for idx, seq in enumerate(itertools.product(range(len(CALLS)), repeat=L)):
+            for idx, seq in enumerate(itertools.product(range(len(allcalls)), repeat=L)):
                 if idx % shard['of'] != shard['k']:
                     continue
-                history = [['parse', CALLS[c][0], CALLS[c][1]] for c in seq]
+                history = [list(allcalls[c]) for c in seq]
                 nt = run_history(acc, opens, exp, history, 'sequence')
                 n += 1
                 acc.case(tuple(seq), nt, {'history': history} if n % 97 == 0 else None)
@@ -228,6 +245,7 @@ def run_shard(shard):
         op = st.one_of(
             st.tuples(st.just('parse'), st.integers(0, len(TEXTS) - 1), st.booleans()),
             st.tuples(st.just('parse'), st.integers(0, len(TEXTS) - 1), st.booleans()),
+            st.tuples(st.just('fparse'), st.sampled_from(VIA_FACTORY), st.booleans()),
             st.tuples(st.just('print'), st.integers(0, len(TEXTS) - 1), st.integers(0, 1)),
             st.tuples(st.just('lex'), st.integers(0, len(TEXTS) - 1), st.booleans()),
         ).map(list)
@@ -248,7 +266,7 @@ def run_shard(shard):
 
 
 def finish(m, cov, tier):
-    cov['exhaustive_part'] = 'all %d call sequences of length <= %d over the 40 (text, flag) calls' % (
+    cov['exhaustive_part'] = 'all %d call sequences of length <= %d over the 48 calls' % (
         m['extra'].get('sequences_enumerated', 0), 2 if tier == 'quick' else 3)
     cov['thread_note'] = 'randomised stress only: %d threaded parses, schedule not controlled' % m['extra'].get(
         'threaded_parses', 0)
